@@ -110,6 +110,16 @@ pub struct SavedVmState {
     pub new_target: JsValue,
     /// Trampoline call stack (for nested function calls)
     pub trampoline_stack: Vec<SavedTrampolineFrame>,
+    /// `this` of the suspended frame
+    pub this_value: JsValue,
+    /// Exception being handled by the suspended frame (kept alive by `guard`)
+    pub exception_value: Option<JsValue>,
+    /// Block scopes entered by the suspended frame and not yet left
+    pub saved_env_stack: Vec<Gc<JsObject>>,
+    /// Constructor being executed by the suspended frame (for super lookups)
+    pub current_constructor: Option<Gc<JsObject>>,
+    /// Completion waiting for the end of a finally block in the suspended frame
+    pub pending_completion: Option<SavedPendingCompletion>,
 }
 
 /// A call frame in the VM
@@ -158,6 +168,60 @@ pub enum PendingCompletion {
     Continue { target: usize, try_depth: u8 },
 }
 
+/// Clone-able version of `PendingCompletion` for saved state: the values are kept
+/// alive by the `SavedVmState.guard`
+#[derive(Clone)]
+pub enum SavedPendingCompletion {
+    Return(JsValue),
+    Throw(JsValue),
+    Break { target: usize, try_depth: u8 },
+    Continue { target: usize, try_depth: u8 },
+}
+
+impl SavedPendingCompletion {
+    fn save(completion: &PendingCompletion, guard: &Guard<JsObject>) -> Self {
+        match completion {
+            PendingCompletion::Return(g) => {
+                if let JsValue::Object(obj) = &g.value {
+                    guard.guard(obj.cheap_clone());
+                }
+                SavedPendingCompletion::Return(g.value.clone())
+            }
+            PendingCompletion::Throw(g) => {
+                if let JsValue::Object(obj) = &g.value {
+                    guard.guard(obj.cheap_clone());
+                }
+                SavedPendingCompletion::Throw(g.value.clone())
+            }
+            PendingCompletion::Break { target, try_depth } => SavedPendingCompletion::Break {
+                target: *target,
+                try_depth: *try_depth,
+            },
+            PendingCompletion::Continue { target, try_depth } => SavedPendingCompletion::Continue {
+                target: *target,
+                try_depth: *try_depth,
+            },
+        }
+    }
+
+    fn restore(self, heap: &crate::gc::Heap<JsObject>) -> PendingCompletion {
+        match self {
+            SavedPendingCompletion::Return(v) => {
+                PendingCompletion::Return(Guarded::from_value(v, heap))
+            }
+            SavedPendingCompletion::Throw(v) => {
+                PendingCompletion::Throw(Guarded::from_value(v, heap))
+            }
+            SavedPendingCompletion::Break { target, try_depth } => {
+                PendingCompletion::Break { target, try_depth }
+            }
+            SavedPendingCompletion::Continue { target, try_depth } => {
+                PendingCompletion::Continue { target, try_depth }
+            }
+        }
+    }
+}
+
 /// A saved trampoline frame for suspension (Clone-able version without Guard)
 /// The SavedVmState.guard keeps all objects alive during suspension
 #[derive(Clone)]
@@ -190,6 +254,10 @@ pub struct SavedTrampolineFrame {
     pub construct_new_obj: Option<Gc<JsObject>>,
     /// For async function calls: wrap result in a Promise when returning
     pub is_async: bool,
+    /// Saved exception value of this frame (kept alive by the SavedVmState guard)
+    pub exception_value: Option<JsValue>,
+    /// Saved pending completion of this frame
+    pub pending_completion: Option<SavedPendingCompletion>,
 }
 
 /// A saved VM frame for the trampoline call stack
@@ -1848,6 +1916,13 @@ impl BytecodeVM {
                 if let Some(ref obj) = frame.construct_new_obj {
                     guard.guard(obj.cheap_clone());
                 }
+                if let Some(Guarded {
+                    value: JsValue::Object(obj),
+                    ..
+                }) = &frame.exception_value
+                {
+                    guard.guard(obj.cheap_clone());
+                }
 
                 SavedTrampolineFrame {
                     ip: frame.ip,
@@ -1864,9 +1939,22 @@ impl BytecodeVM {
                     saved_interp_env: frame.saved_interp_env.cheap_clone(),
                     construct_new_obj: frame.construct_new_obj.clone(),
                     is_async: frame.is_async,
+                    exception_value: frame.exception_value.as_ref().map(|g| g.value.clone()),
+                    pending_completion: frame
+                        .pending_completion
+                        .as_ref()
+                        .map(|c| SavedPendingCompletion::save(c, &guard)),
                 }
             })
             .collect();
+
+        if let Some(ref ctor) = self.current_constructor {
+            guard.guard(ctor.cheap_clone());
+        }
+        let pending_completion = self
+            .pending_completion
+            .as_ref()
+            .map(|c| SavedPendingCompletion::save(c, &guard));
 
         SavedVmState {
             frames: self.call_stack.clone(),
@@ -1878,6 +1966,11 @@ impl BytecodeVM {
             arguments: self.arguments.clone(),
             new_target: self.new_target.clone(),
             trampoline_stack: saved_trampoline_stack,
+            this_value: self.this_value.clone(),
+            exception_value: self.exception_value.as_ref().map(|g| g.value.clone()),
+            saved_env_stack: self.saved_env_stack.clone(),
+            current_constructor: self.current_constructor.clone(),
+            pending_completion,
         }
     }
 
@@ -1946,12 +2039,12 @@ impl BytecodeVM {
                     this_value: saved.this_value,
                     vm_call_stack: saved.vm_call_stack,
                     try_stack: saved.try_stack,
-                    exception_value: None, // Lost during save, but we handle exceptions differently on resume
+                    exception_value: saved.exception_value.map(|v| Guarded::from_value(v, heap)),
                     saved_env_stack: saved.saved_env_stack,
                     arguments: saved.arguments,
                     new_target: saved.new_target,
                     current_constructor: saved.current_constructor,
-                    pending_completion: None, // Lost during save
+                    pending_completion: saved.pending_completion.map(|c| c.restore(heap)),
                     return_register: saved.return_register,
                     saved_interp_env: saved.saved_interp_env,
                     register_guard: frame_guard,
@@ -1969,12 +2062,12 @@ impl BytecodeVM {
             call_stack: state.frames,
             try_stack: state.try_stack,
             this_value,
-            exception_value: None,
-            saved_env_stack: Vec::new(),
+            exception_value: state.exception_value.map(|v| Guarded::from_value(v, heap)),
+            saved_env_stack: state.saved_env_stack,
             arguments: state.arguments,
             new_target: state.new_target,
-            current_constructor: None,
-            pending_completion: None,
+            current_constructor: state.current_constructor,
+            pending_completion: state.pending_completion.map(|c| c.restore(heap)),
             trampoline_stack,
             register_pool: Vec::new(),
             arguments_pool: Vec::new(),
